@@ -66,6 +66,10 @@ struct State {
     ctx_hash: u64,
     /// threads that found an RwLock taken when asking for the write side and have not got it yet
     want_write: BTreeMap<usize, BTreeSet<usize>>,
+    /// lock acquisitions attempted per lock so far in this run; rarely taken locks (publication,
+    /// run list, segment list) get a higher switch probability than hot ones (pager)
+    lock_uses: BTreeMap<usize, u32>,
+    boost: bool,
     /// this run's RwLock policy: like std's futex RwLock on Linux, no new reader is admitted
     /// while a writer waits (a second read lock on the same thread then deadlocks behind it)
     writer_pref: bool,
@@ -115,6 +119,8 @@ impl Sched {
                 point_counts: BTreeMap::new(),
                 ctx_hash: 0xcbf29ce484222325,
                 want_write: BTreeMap::new(),
+                lock_uses: BTreeMap::new(),
+                boost: false,
                 writer_pref: Rng::new(seed, "rwlock-policy").below(4) != 0,
             }),
             cv: Condvar::new(),
@@ -269,9 +275,10 @@ impl Sched {
         } else {
             match st.mode.clone() {
                 SchedMode::Random { p_switch_permille } => {
+                    let p = if st.boost { p_switch_permille.max(400) } else { p_switch_permille };
                     if let Some(m) = me
                         && elig.contains(&m)
-                        && st.rng.below(1000) >= p_switch_permille as u64
+                        && st.rng.below(1000) >= p as u64
                     {
                         m
                     } else {
@@ -324,6 +331,7 @@ impl Sched {
             std::panic::resume_unwind(Box::new(SimAbort));
         }
         self.pick_next(&mut st, Some(tid));
+        st.boost = false;
         if st.current != Some(tid) {
             self.cv.notify_all();
             st = self.wait_for_baton(st, tid);
@@ -339,6 +347,11 @@ impl Sched {
         {
             let mut st = self.st.lock().unwrap();
             st.addr_name.entry(addr).or_insert(name);
+            if matches!(kind, SyncKind::MutexLock | SyncKind::RwRead | SyncKind::RwWrite) {
+                let n = st.lock_uses.entry(addr).or_default();
+                *n += 1;
+                st.boost = *n <= 12;
+            }
         }
         let what = match kind {
             SyncKind::MutexLock => "mutex",
